@@ -47,7 +47,7 @@ json.dump(m, open(os.path.join(vlib.ROOT, "MANIFEST.json"), "w"), indent=1)
 
 # pinned statements
 pinned = {}
-for pid in ALL:
+for pid in ALL + ["C02enc", "C13b", "Bridge"]:
     vf = os.path.join(vlib.COQ, "Props", f"{pid}.v")
     if not os.path.exists(vf):
         continue
